@@ -63,43 +63,42 @@ def tab_offsets(ctx, report, folder):
     lo_t, hi_t = min(tabs.values()), max(tabs.values())
     fn = ctx.index.get_function(SM, "_PositioningTracker.update_positioning")
     report.covered(fn)
-    # the window predicate: a boolean expression over the old and new (row, col); folded over the whole
-    # finite domain (15 rows x 32 columns for both addresses), independent of how it is spelled
-    unpack = {}
-    for n in walk_no_nested(fn.node):
-        if isinstance(n, ast.Assign) and isinstance(n.targets[0], ast.Tuple) and len(n.targets[0].elts) == 2 \
-                and all(isinstance(e, ast.Name) for e in n.targets[0].elts):
-            unpack[src(n.value)] = [e.id for e in n.targets[0].elts]
-    if len(unpack) != 2 or fn.params[1] not in unpack:
-        raise AnalysisError("update_positioning: the old and the new address are not unpacked into (row, col) pairs")
-    new_row, new_col = unpack[fn.params[1]]
-    row, col = next(v for k, v in unpack.items() if k != fn.params[1])
-    names = {row, col, new_row, new_col}
-    cands = []
-    for n in walk_no_nested(fn.node):
-        if isinstance(n, ast.Assign) and len(n.targets) == 1 and isinstance(n.targets[0], ast.Name):
-            free = {x.id for x in ast.walk(n.value) if isinstance(x, ast.Name)} - {"range", "abs", "int", "True", "False"}
-            if {col, new_col} <= free <= names:
-                cands.append(n)
-    if len(cands) != 1:
-        raise AnalysisError(f"update_positioning: tab-offset window predicate not found ({len(cands)} candidates)")
-    c = cands[0]
+    # the window, observed on the tracker's own state: starting from one known address, which moves on the SAME row
+    # are taken as an adjustment of that address (no repositioning demanded)?  Folded over the whole finite domain
+    # (rows 1/8/15 x 32 x 32 columns), independent of how the routine spells the test.
+    from ..core.constfold import Stub, FoldRaise
+    init = fn.cls.find_method("__init__")
     accepted, other_row = set(), False
+    n_eval = 0
+
+    def moved(p0, p1):
+        nonlocal n_eval
+        t = Stub("tracker", {}, cls=fn.cls)
+        try:
+            if init is not None:
+                folder.call_function(init, [], {}, self_value=t)
+            folder.call_function(fn, [p0], {}, self_value=t)
+            folder.call_function(fn, [p1], {}, self_value=t)
+        except FoldRaise as e:
+            raise AnalysisError(f"update_positioning raises on {p0} -> {p1}: {e}")
+        except AnalysisError as e:
+            raise AnalysisError(f"update_positioning: not foldable: {e}")
+        n_eval += 1
+        if "_repositioning_required" not in t.attrs:
+            raise AnalysisError("update_positioning: the tracker has no _repositioning_required flag")
+        return bool(t.attrs["_repositioning_required"])
     for r0 in (1, 8, 15):
         for c0 in range(32):
             for c1 in range(32):
-                try:
-                    if folder.eval_in(fn.module, c.value, {row: r0, col: c0, new_row: r0, new_col: c1}):
-                        accepted.add(c1 - c0)
-                    if r0 < 15 and folder.eval_in(fn.module, c.value, {row: r0, col: c0, new_row: r0 + 1, new_col: c1}):
-                        other_row = True
-                except AnalysisError as e:
-                    raise AnalysisError(f"update_positioning: window predicate not foldable: {e}")
-    report.check(accepted == set(tabs.values()) and not other_row, "R-TABLE-SIBLING", (fn, c),
+                if c1 != c0 and not moved((r0, c0), (r0, c1)):
+                    accepted.add(c1 - c0)
+                if r0 + 2 <= 15 and c1 != c0 and not moved((r0, c0), (r0 + 2, c1)):
+                    other_row = True
+    report.check(accepted == set(tabs.values()) and not other_row, "R-TABLE-SIBLING", fn,
                  "the tab-offset window covers exactly the offsets of PAC_TAB_OFFSET_COMMANDS",
-                 {"predicate": src(c.value), "column_differences_accepted": sorted(accepted),
+                 {"column_differences_taken_as_adjustment": sorted(accepted),
                   "accepted_on_another_row": other_row, "table_offsets": sorted(tabs.values()),
-                  "evaluations": 3 * 32 * 32 * 2}, "4")
+                  "evaluations": n_eval}, "4")
     up = ctx.index.get_function(SPC, "InstructionNodeCreator._update_positioning")
     report.covered(up)
     st = [n for n in walk_no_nested(up.node) if isinstance(n, ast.Assign) and src(n.targets[0]) == "positioning"
